@@ -503,11 +503,14 @@ impl Dataset {
     ) -> Result<Self> {
         let (source_branch, version_number) = self.resolve_reference(version.into()).await?;
         let branch_location = self.find_branch_location(branch)?;
+        // The version is read from the branch the reference names, which need not be the
+        // branch this handle is on.
+        let source_location = self.find_ref_location(source_branch.clone())?;
         let clone_op = Operation::Clone {
             is_shallow: true,
             ref_name: source_branch.clone(),
             ref_version: version_number,
-            ref_path: String::from(self.uri()),
+            ref_path: source_location.uri,
             branch_name: Some(branch.to_string()),
         };
         let transaction = Transaction::new(version_number, clone_op, None);
@@ -826,6 +829,16 @@ impl Dataset {
             uri: self.uri.clone(),
             branch: self.manifest.branch.clone(),
         }
+    }
+
+    /// Location of the given branch (`None` is the main branch), relative to this handle's location.
+    fn find_ref_location(&self, branch_name: Option<String>) -> Result<BranchLocation> {
+        let current_location = BranchLocation {
+            path: self.base.clone(),
+            uri: self.uri.clone(),
+            branch: self.manifest.branch.clone(),
+        };
+        current_location.find_branch(branch_name)
     }
 
     pub fn find_branch_location(&self, branch_name: &str) -> Result<BranchLocation> {
@@ -1967,11 +1980,14 @@ impl Dataset {
     ) -> Result<Self> {
         let ref_ = version.into();
         let (ref_name, version_number) = self.resolve_reference(ref_).await?;
+        // The version is read from the branch the reference names, which need not be the
+        // branch this handle is on.
+        let source_location = self.find_ref_location(ref_name.clone())?;
         let clone_op = Operation::Clone {
             is_shallow: true,
             ref_name,
             ref_version: version_number,
-            ref_path: self.uri.clone(),
+            ref_path: source_location.uri,
             branch_name: None,
         };
         let transaction = Transaction::new(version_number, clone_op, None);
